@@ -629,6 +629,10 @@ class Engine:
             except PathAbort as e:
                 outcomes.append(Outcome(e.kind, None, list(self.pc), e.msg, trace=list(self.trace), idents=dict(self.lazy_ident)))
             self.stats["paths"] += 1
+            if self.stats["paths"] % 500 == 0:
+                import gc
+                if not gc.isenabled():
+                    gc.collect()        # automatic collection is off in check processes (z3 is not thread-safe); collect here, in the owning thread
             if self.stats["paths"] > max_paths:
                 raise Unsupported("more than %d paths" % max_paths)
             # next decision vector: bump the last decision that still has an alternative
